@@ -105,3 +105,16 @@ def untraced(fn, *args, **kwargs):
         with NoTracing():
             return fn(*args, **kwargs)
     return fn(*args, **kwargs)
+
+
+def concrete(value):
+    """The concrete value of `value` on this path (CrossHair: deep_realize; plain Python: identity). Used right before handing a
+    produced document to a C-backed / regex-heavy judge (PyYAML), which is then run outside tracing."""
+    try:
+        from crosshair.core import deep_realize
+        from crosshair.tracers import is_tracing
+    except Exception:  # pragma: no cover
+        return value
+    if is_tracing():
+        return deep_realize(value)
+    return value
